@@ -576,7 +576,7 @@ class RandMaxVar(MaxVar):
             val_pdf = self.evaluate(theta)
             if val_pdf == 0:
                 return -np.inf
-            return np.log(val_pdf)
+            return float(np.squeeze(np.log(val_pdf)))
 
         batch_theta = np.zeros(shape=len(gp.bounds))
 
